@@ -182,6 +182,19 @@ def cases(tier, rng):
             for d in durs[::7]:
                 yield case_line('ndt.opadd', dt + t, d)
                 yield case_line('ndt.opsub', dt + t, d)
+    # ---- the same with a core::time::Duration (whole days, days + a rest, beyond the largest TimeDelta)
+    stds = [(0, 0), (0, 1), (0, G - 1), (1, 0), (59, 0), (60, 0), (86399, 0), (86399, G - 1), (86400, 0), (86400, 1),
+            (86400, G // 2), (86401, 0), (2 * 86400, 0), (3 * 86400, 700000000), (366 * 86400, 0), (146097 * 86400, 0),
+            (MAXS, MAXN), (MAXS, MAXN + 1), (MAXS + 1, 0), (2**63, 0), (2**64 - 1, G - 1)]
+    for dt in dates:
+        for t in ntimes[::2] + [[86399, G + 300000000], [11160, G + 300000000]]:
+            for (ds, dn) in stds:
+                yield case_line('ndt.addstd', dt + t, ds, dn)
+                yield case_line('ndt.substd', dt + t, ds, dn)
+            for (ds, dn) in stds[::4]:
+                yield case_line('ndt.addstd_assign', dt + t, ds, dn)
+                yield case_line('ndt.substd_assign', dt + t, ds, dn)
+    yield case_line('ndt.addstd', [2016, 366, 11160, G + 300000000], 86400, 0)
     # invalid arguments (must be BADARGS on both sides)
     yield case_line('t.add', [86400, 0], [0, 0])
     yield case_line('t.add', [0, 2 * G], [0, 0])
